@@ -33,6 +33,18 @@ def hex (b : Bytes) : String :=
   if b.isEmpty then "-"
   else String.ofList (b.foldr (fun x acc => hexChar (x.toNat / 16) :: hexChar (x.toNat % 16) :: acc) [])
 
+/-- a hexadecimal numeral (any length, `0` = zero) -/
+def hexNat (s : String) : Option Nat :=
+  s.toList.foldl (fun acc c => match acc, hexDigit c with
+    | some a, some d => some (a * 16 + d)
+    | _, _ => none) (some 0)
+
+/-- octets given as numbers -/
+def hexOctets (l : List Nat) : String := hex (l.map UInt8.ofNat)
+
+def natHex (n : Nat) : String :=
+  if n = 0 then "0" else String.ofList ((Nat.toDigits 16 n))
+
 def hexOpt : Option Bytes → String
   | none => "NULL"
   | some b => hex b
